@@ -159,6 +159,11 @@ def run(ctx: common.Run):
     # channels
     creqs, cmeta = [], []
     for name, kinds, build in channels(cirq):
+        # the ends of the parameter range first, as floats and as ints (a factory must not read `0` as "not given")
+        ends = [[e] * len(kinds) for e in (0.0, 1.0, 0, 1)] + ([[0.0, 1.0], [1, 0]] if len(kinds) == 2 else []) if kinds and kinds[0] == 'prob' else []
+        for ps in ends:
+            creqs.append({'p': 'C03', 'op': 'kraus', 'name': name, 'params': [common.f2b(float(x)) for x in ps]})
+            cmeta.append((name, ps, build))
         for _ in range(max(3, n // 4)):
             if kinds and kinds[0] == 'p3':
                 a, b, c = sorted(rng.random() for _ in range(3))
